@@ -29,7 +29,14 @@
   after it was freed), `term` (`std::terminate()` reached), `bad` (double delete).
 
   The model follows the code AS IT IS, including two behaviours that violate the property
-  (see Props/C09.lean: `cancel_*_uaf`, `connect_stop_drop_terminates`).
+  (see Props/C09*.lean: `cancel_*_uaf`, `late_cancel_value_uaf`, `connect_stop_drop_terminates`).
+
+  Further configurations: `late` (T2 requests stop only after T1 has finished — the available
+  result must be delivered), `detached` (`spawn_detached`: no future; the completing thread deletes
+  the state, an error completion is `std::terminate()`).  The scope's reference counting (C08) is
+  not modelled.  The `v1_*` configuration names are aliases used by the v1::async_scope scenarios
+  whose observable behaviour coincides with v2 (await, drop, detached); cancellation through a v1
+  scope (its attach layer completes early with done) is not modelled.
 
   Observable labels are the strings the C++ scenarios print (harness/rt/scn_c09.cpp).
 -/
